@@ -132,8 +132,9 @@ def btc(sat):
 FLOAT_HOSTILE = [29000000, 57000000, 58000000, 113000000, 115000000, 1001, 1999, 123456789, 2100000000000000 - 1, 999]
 
 
-def make_case(rnd, *, kind, rkind, signed, flag, n_utxo, num, den, fee, version, lock, change, m=1, n=1, amounts=None, vouts=None):
-    snd = Sender(kind, rnd, m=m, n=n)
+def make_case(rnd, *, kind, rkind, signed, flag, n_utxo, num, den, fee, version, lock, change, m=1, n=1, amounts=None, vouts=None,
+              snd=None):
+    snd = snd or Sender(kind, rnd, m=m, n=n)
     raddr, rspk = recipient(rkind, rnd)
     caddr, cspk = (recipient(change, rnd) if change else (None, snd.spk))
     utxos = []
@@ -233,6 +234,13 @@ def gen_cases(ctx, rnd):
                                n_utxo=1 if i % 4 else 2, num=1, den=rnd.choice([1, 2]), fee=1000, version=rnd.choice([1, 2]),
                                lock=rnd.choice([0, 7]), change="p2pkh" if kind == "multisig" else rnd.choice([None, "p2pkh"]), m=mm, n=nn,
                                vouts=None))
+    # 5. histories: the SAME sender calls send several times in one process while its reported UTXO set changes
+    for i in range(3 if quick else 40):
+        kind = ["p2wpkh", "p2pkh-c", "p2sh-p2wpkh", "p2wsh"][i % 4]
+        snd = Sender(kind, rnd, m=1, n=2)
+        for step in range(3):
+            cases.append(make_case(rnd, kind=kind, rkind=rk[(i + step) % len(rk)], signed=(step != 1), flag=1, n_utxo=rnd.randint(1, 3),
+                                   num=1, den=rnd.choice([1, 2]), fee=1000, version=2, lock=0, change=None, m=1, n=2, snd=snd))
     return cases
 
 
